@@ -639,6 +639,8 @@ struct State {
 
 struct Inner {
     st: Mutex<State>,
+    /// connections accepted by a listener whose task has not registered them yet
+    accepting: std::sync::atomic::AtomicUsize,
     changed: Notify,
     port: u16,
     sa_port: u16,
@@ -684,6 +686,7 @@ impl MockClusterBuilder {
     pub async fn build(self) -> Result<MockCluster, String> {
         let c = MockCluster {
             inner: Arc::new(Inner {
+                accepting: std::sync::atomic::AtomicUsize::new(0),
                 st: Mutex::new(State {
                     nodes: Vec::new(),
                     keyspaces: self.keyspaces,
@@ -779,6 +782,7 @@ impl MockCluster {
                     r = l.accept() => match r {
                         Ok((stream, peer)) => {
                             let me2 = me.clone();
+                            me.inner.accepting.fetch_add(1, Ordering::SeqCst);
                             tokio::spawn(async move { me2.run_conn(node, stream, peer, shard_port).await });
                         }
                         Err(_) => tokio::task::yield_now().await,
@@ -1162,7 +1166,9 @@ impl MockCluster {
         self.notify();
         n
     }
-    /// Stop all listeners and reset every connection (no TIME_WAIT is left behind). Call before dropping the Session.
+    /// Stop all listeners, then reset every connection (no TIME_WAIT is left behind). Call before dropping the Session.
+    /// Listeners go first so that a driver that fails over to another node while its connections are being reset
+    /// cannot slip in a late connection that would outlive the shutdown.
     pub async fn shutdown(&self) {
         self.unhold_all();
         let held: Vec<HeldAction> = std::mem::take(&mut self.lock().held);
@@ -1171,7 +1177,20 @@ impl MockCluster {
         }
         let n = self.node_count();
         for i in 0..n {
-            self.kill_node(i).await;
+            self.stop_listening(i).await;
+        }
+        // connections accepted just before the listeners closed register themselves asynchronously
+        loop {
+            while self.inner.accepting.load(Ordering::SeqCst) > 0 {
+                tokio::task::yield_now().await;
+            }
+            let ids: Vec<u64> = self.lock().conns.values().filter(|c| c.info.open).map(|c| c.info.id).collect();
+            if ids.is_empty() {
+                break;
+            }
+            for id in ids {
+                self.close_conn(id, CloseKind::Rst).await;
+            }
         }
     }
 
@@ -1216,6 +1235,7 @@ impl MockCluster {
             Self::push_log(&mut st, node, id, shard, LogKind::Open { peer, shard_port });
             (id, shard)
         };
+        self.inner.accepting.fetch_sub(1, Ordering::SeqCst);
         self.notify();
 
         let mut closed_by = None;
